@@ -619,7 +619,7 @@ func c20Assignments2(labels []string, values [][]string) []c20Asg {
 	return out
 }
 
-// c20RepeatedLabelFormulas: the SAME label in two (thorough: also three) leaves with different values, every polarity
+// c20RepeatedLabelFormulas: the SAME label in two and in three leaves with different values, every polarity
 // combination (pos/pos, pos/not, not/pos, not/not), under and / or, both leaf orders, alone and beside a leaf on another label.
 func c20RepeatedLabelFormulas(thorough bool) []*abe.Node {
 	var out []*abe.Node
@@ -639,7 +639,8 @@ func c20RepeatedLabelFormulas(thorough bool) []*abe.Node {
 			}
 		}
 	}
-	if thorough {
+	// three leaves on one label (both tiers): a satisfying set may use a later occurrence while skipping an earlier one
+	{
 		for pol := 0; pol < 8; pol++ {
 			x, y, z := sg(abe.L("a", "1"), pol&1 != 0), sg(abe.L("a", "2"), pol&2 != 0), sg(abe.L("a", "3"), pol&4 != 0)
 			for _, op1 := range ops {
